@@ -350,7 +350,7 @@ impl Acc {
     }
 }
 
-fn ans_json(s: &[Ans]) -> serde_json::Value {
+pub fn ans_json(s: &[Ans]) -> serde_json::Value {
     json!(s.iter().map(|a| match a { Ans::Frac(k, r) => format!("{}/{}", k, r), Ans::Raw(x) => format!("raw:{:#x}", x) }).collect::<Vec<_>>())
 }
 
@@ -465,7 +465,7 @@ pub fn run_seeded(acc: &Acc, multi: bool, c: &AgentCfg, start: StartBook, seed: 
 }
 
 /// scripts = default stream with <= max_dev positions (among the first n) overridden by extreme values
-fn scripts_with_deviations(seed: u64, n: usize, values: &[u64], max_dev: usize) -> Vec<Vec<Ans>> {
+pub fn scripts_with_deviations(seed: u64, n: usize, values: &[u64], max_dev: usize) -> Vec<Vec<Ans>> {
     // materialise the default stream's first n answers (both widths come from the same u64)
     let mut base = ScriptRng::new(vec![], seed);
     let defaults: Vec<u64> = (0..n).map(|_| base.next_u64()).collect();
